@@ -52,7 +52,7 @@ let case (line : string) : string =
          | VRet c -> Buffer.add_string buf ("r" ^ string_of_z c)
          | VCb (tag, i, nw) ->
              Buffer.add_string buf (Printf.sprintf "c%d,%d,%s" (int_of_nat tag) (int_of_nat i) (string_of_z nw))
-         | VPoll t -> Buffer.add_string buf ("w" ^ string_of_z t)
+         | VPoll (t, i, c, st, a) -> Buffer.add_string buf ("w" ^ string_of_z t ^ ":" ^ bit i ^ bit c ^ bit st ^ bit a)
          | VHang -> Buffer.add_string buf "H"
          | VAlive b -> Buffer.add_string buf ("l" ^ bit b)
          | VObs (a, r, fl) ->
